@@ -406,13 +406,23 @@ func (r *renderer) varDecl(v *VarDecl) {
 	if v.Site != nil {
 		v.Site.Grouped = v.Grouped
 		// comments attached to the declaration node belong on its only line
+		two := v.Grouped && v.Site2 != nil
 		if v.Trailing != "" {
 			v.Site.Trailing = v.Trailing
-		} else if v.TrailingLast != "" {
+		} else if v.TrailingLast != "" && !two {
 			v.Site.Trailing = v.TrailingLast
+		}
+		if two && v.TrailingLast != "" {
+			// the declaration's last line is the second spec's
+			v.Site2.Trailing = v.TrailingLast
 		}
 		r.site(v.Site)
 		v.Start, v.End = v.Site.Start, v.Site.End
+		if v.Grouped && v.Site2 != nil {
+			v.Site2.Grouped = true
+			r.site(v.Site2)
+			v.End = v.Site2.End
+		}
 	} else if v.Closure != nil {
 		if !v.Grouped {
 			prefix = "var "
@@ -989,6 +999,9 @@ func shiftDecls(ds []Decl, off int) {
 			}
 			if d.Site != nil {
 				shiftNode(&d.Site.Node, off)
+			}
+			if d.Site2 != nil {
+				shiftNode(&d.Site2.Node, off)
 			}
 		}
 	}
